@@ -260,7 +260,9 @@ func c06Jobs(tier string) []*SeqJob {
 func c06Scenarios(tier string) []*Scenario {
 	vc := tally.ValidCharacters{Ranges: tally.AlphanumericRange, Characters: tally.UnderscoreCharacters}
 	opts := tally.SanitizeOptions{NameCharacters: vc, KeyCharacters: vc, ValueCharacters: vc, ReplacementCharacter: '_'}
-	inputs := [][]string{{"a b", "long-dirty-string!"}, {"é€", "x.y.z"}, {"ok", "q?"}}
+	// (each thread asks for its first string twice in a row: whatever a sanitize function remembers about the strings
+	// it has rewritten - of this thread or of another - must not change the answer)
+	inputs := [][]string{{"a b", "a b", "long-dirty-string!"}, {"é€", "é€", "x.y.z"}, {"q?", "q?", "ok"}}
 	nth := tierInt(tier, 2, 3)
 	var out []*Scenario
 	for _, miss := range []bool{false, true} {
